@@ -1,5 +1,46 @@
 (** * IScanProofs: the cursor API (iscan_open / iscan_next), driven to its end, delivers exactly
-    the entries of the interval, in the direction of the cursor. *)
+    the entries of the interval, in the direction of the cursor.
+
+    Results (all closed under the global context):
+    - [iscan_validate_spec]   the argument checks of the cursor = [spec_scan_args_ok] of the same
+                              record read as a scan() record with max_size 0 and left-to-right
+                              ([iscan_to_scan]): the cursor has no right-to-left restriction;
+    - [iscan_refines_all_partial]  for every argument record (both directions, all endpoint kinds),
+                              under [WF_store] and [iscan_live]: [iscan_all] terminates within its
+                              fuel, rejects exactly the records [iscan_validate] rejects, and
+                              otherwise delivers [spec_iscan_list (abs_tree tr) a] (keys = full_key,
+                              values, order).  [spec_iscan_list] is the specification as planned: the
+                              model normalises an INF left end point to ([], INCL), which is the same
+                              interval; right to left the right end is the start and the left end the
+                              end; an INF right end is "no end" left to right (end tuple max() in
+                              every layer) and "start at max()" right to left, its key is ignored;
+    - the hypothesis is NOT [scan_inv]: [scan_inv] is neither needed (the descents of the cursor
+      with max()/sup() reach the last border whatever the separators are) nor sufficient:
+      [iscan_findfirst] stops at a border flagged deleted-and-root in EVERY layer, while
+      [scan_inv] (via [live_ok]) only speaks about layer 0.
+      [IScanCounterexample.iscan_refines_all_false_from_scan_inv]: the statement with
+      [WF_store] and [scan_inv] alone is false (a well-formed store with [scan_inv], a flagged
+      border in layer 1: the cursor returns nothing, the specification one entry);
+    - [iscan_live]            = a border flagged deleted-and-root only occurs in the empty store,
+                              in every layer (what is excluded: unreachable stores with such a
+                              border in a non-empty layer);
+    - [iscan_inv] ([live_all]) no border flagged deleted but the one of the empty store: holds on the
+                              null and on the empty store and is preserved by put and remove
+                              ([iscan_inv_null], [iscan_inv_empty], [put_iscan_inv],
+                              [remove_iscan_inv]), implies [iscan_live];
+    - [iscan_refines_inv]     the refinement on every store with [WF_store] and [iscan_inv], i.e. every
+                              store reached by puts and removes;
+    - [IScanExample]          the hypotheses hold on the 39-layer store of [ScanExample] and on two
+                              stores obtained from it by removes (one of them emptied: flagged root
+                              border); 468 + 108 + 108 argument records are evaluated.
+
+    Structure of the proof (direction-generic: [rtl] is a section variable): the stack denotes a
+    position in the in-order enumeration of the trie; [rems st] = what is still to come after it
+    (per layer: the entries beyond the element's key, [pend], with everything under them);
+    [ifindfirst_spec]: the descent leaves [rems] = the part of the enumeration on the right side
+    of the start point; [ifindnext_spec] / [inext_spec]: one step delivers the head of [rems] if
+    it is inside the end point and otherwise ends with everything left outside;
+    [collect_spec]: induction on [rems]; fuel: [pos_cost_bound], [clayer_count]. *)
 From Coq Require Import ZArith NArith PeanoNat Lia ZifyBool ZifyN Bool List Sorted Permutation.
 From Yk Require Import ListAux Word64 PermDefs PermProofs VersionDefs VersionProofs KeyDefs KeyProofs TreeDefs
      ScanDefs SysDefs SpecDefs IScanDefs LeafProofs LayerProofs VersionReportProofs StoreProofs ScanProofs.
